@@ -6,7 +6,7 @@ use aranya_runtime::{Address, CmdId, MaxCut, Prior, Priority};
 use serde::{Deserialize, Serialize};
 
 use crate::{
-    node::OwnedCmd,
+    node::{OwnedCmd, recompute_cmd_id},
     shadow::{Shadow, VmData},
     wire_mirror::{self, CommandMeta, ResponseMsg},
 };
@@ -38,6 +38,11 @@ pub enum MutKind {
     SwapKind,
     SwapId,
     SwapParent,
+    // a bound field changed AND the command id recomputed from public data to fit it
+    RePayload,
+    ReKind,
+    ReParent,
+    ReAuthor,
     // whole commands
     Inject,
     Dup,
@@ -71,6 +76,10 @@ pub const ALL_KINDS: &[MutKind] = &[
     MutKind::SwapKind,
     MutKind::SwapId,
     MutKind::SwapParent,
+    MutKind::RePayload,
+    MutKind::ReKind,
+    MutKind::ReParent,
+    MutKind::ReAuthor,
     MutKind::Inject,
     MutKind::Dup,
     MutKind::Drop,
@@ -167,7 +176,7 @@ const KIND_NAMES: &[&str] = &["Create", "Increment", "Decrement", "AddDeviceKeys
 
 /// Applies `m` to the encoded response. Returns false when the mutation did not apply (the
 /// message is delivered unchanged).
-pub fn apply(bytes: &mut Vec<u8>, m: &Mut, sh: &Shadow, devices: &[DeviceId]) -> bool {
+pub fn apply(bytes: &mut Vec<u8>, m: &Mut, sh: &Shadow, devices: &[DeviceId], key_ids: &[Vec<u8>]) -> bool {
     let len = bytes.len();
     match m.kind {
         MutKind::BitFlip => {
@@ -414,6 +423,62 @@ pub fn apply(bytes: &mut Vec<u8>, m: &Mut, sh: &Shadow, devices: &[DeviceId]) ->
                     false
                 }
             }
+        }
+        MutKind::RePayload | MutKind::ReKind | MutKind::ReParent | MutKind::ReAuthor => {
+            let Some(k) = signed_at(&d.cmds, i) else { return false };
+            let (mut v, trailing) = VmData::decode(&d.cmds[k].data).expect("signed_at checked");
+            let key_of = |dev: &DeviceId| devices.iter().position(|x| x == dev).map(|p| key_ids[p].as_slice());
+            let parent_of = |c: &OwnedCmd| match c.parent {
+                Prior::None => Some(CmdId::default()),
+                Prior::Single(p) => Some(p.id),
+                Prior::Merge(..) => None,
+            };
+            // Only when the recomputation reproduces the honest id (otherwise the harness does not
+            // know how this build derives ids and the mutation would be a plain id change).
+            let (Some(key), Some(pid)) = (key_of(&v.author_id), parent_of(&d.cmds[k])) else { return false };
+            if recompute_cmd_id(key, &v.kind, &pid, &v.serialized_fields, &v.signature) != d.cmds[k].id {
+                return false;
+            }
+            match m.kind {
+                MutKind::RePayload => {
+                    if v.serialized_fields.is_empty() {
+                        v.serialized_fields.push(m.b as u8);
+                    } else {
+                        let at = m.a as usize % v.serialized_fields.len();
+                        v.serialized_fields[at] ^= 1 << (m.b % 8);
+                    }
+                }
+                MutKind::ReKind => {
+                    // Create / Increment / Decrement share one field layout and one priority.
+                    let names = ["Create", "Increment", "Decrement"];
+                    let mut to = names[m.a as usize % 3];
+                    if to == v.kind {
+                        to = names[(m.a as usize + 1) % 3];
+                    }
+                    v.kind = to.to_string();
+                }
+                MutKind::ReParent => {
+                    let Prior::Single(p) = d.cmds[k].parent else { return false };
+                    let me = d.cmds[k].id;
+                    let pool: Vec<&OwnedCmd> = sh.order.iter().filter(|x| **x != p.id && **x != me).map(|x| &sh.honest[x].cmd).collect();
+                    if pool.is_empty() {
+                        return false;
+                    }
+                    let o = pool[m.a as usize % pool.len()];
+                    d.cmds[k].parent = Prior::Single(Address { id: o.id, max_cut: MaxCut::new(o.max_cut()) });
+                }
+                _ => {
+                    let others: Vec<&DeviceId> = devices.iter().filter(|x| **x != v.author_id).collect();
+                    if others.is_empty() {
+                        return false;
+                    }
+                    v.author_id = *others[m.a as usize % others.len()];
+                }
+            }
+            let (Some(key), Some(pid)) = (key_of(&v.author_id), parent_of(&d.cmds[k])) else { return false };
+            d.cmds[k].id = recompute_cmd_id(key, &v.kind, &pid, &v.serialized_fields, &v.signature);
+            d.cmds[k].data = v.encode(&trailing);
+            true
         }
         MutKind::Inject => {
             let Some(c) = other_honest(sh, m.a, &CmdId::default(), false) else { return false };
